@@ -53,8 +53,10 @@ package connlist
 // Directory API: a reading failure is reported only when the scanner reported one (C13, C18)
 // ---------------------------------------------------------------------------------------------
 
+//@ import logger "github.com/np-guard/netpol-analyzer/pkg/logger"
+//@ pred caLoggerOK(l logger.Logger) = l != nil && (dyntype(l, *logger.DefaultLogger) ==> (unwrap(l, *logger.DefaultLogger) != nil && unwrap(l, *logger.DefaultLogger).l != nil))
 //@ func (*ConnlistAnalyzer).ConnlistFromDirPath
-//@   requires ca != nil
+//@   requires ca != nil && caLoggerOK(ca.logger)
 //@   modifies *
 //@   before call 2:
 //@     assert [C13,C18] scanfailed: len(errs) > 0
